@@ -544,9 +544,9 @@ def dropEv (q : Quirks) (c : Cfg) (v : Vol) (m : QEv) : List Act × Vol :=
   | j :: _ =>
     if (evJids m.kind).any (deadJid q c v) then
       let (acts, v') := tidy c { v with joins := markDead v.joins [j] } (evOwner m.kind) [m.id]
-      (Act.ackEv m.id :: acts, { v' with timers := v'.timers.erase m.id })
-    else ([.ackEv m.id], { v with timers := v.timers.erase m.id })
-  | [] => ([.ackEv m.id], { v with timers := v.timers.erase m.id })
+      (Act.ackEv m.id :: acts, v')
+    else ([.ackEv m.id], v)
+  | [] => ([.ackEv m.id], v)
 
 /-- the request of a Task visit -/
 def requestOf (id : Nat) : Sk → List Act
